@@ -181,7 +181,8 @@ def run_check(pid, tier):
     for r in getattr(prop, 'REFUTED', []):
         obligations += 1
         try:
-            still = bool(r['still_fails']())
+            with core.deadline(120):
+                still = bool(r['still_fails']())
         except Exception:
             still = False
             notes.append('refuted witness %s: replay crashed: %s' % (r['theorem'], traceback.format_exc()[-400:]))
@@ -227,13 +228,13 @@ def run_check(pid, tier):
         rng = random.Random('oracle/%s/%d' % (pid, core.seed()))
         ts = time.time()
         try:
-            with core.deadline(budget * 3 + 60):
+            with core.deadline(max(600, budget * 6)):     # generous: a slow machine must not look like a hanging implementation
                 found, nev = prop.oracle_search(rng, budget, tier)
         except core.Timeout:
             found, nev = [], 0
             notes.append('oracle_search exceeded its deadline: the implementation does not answer in time on some generated input')
             broken.append({'kind': 'oracle-timeout', 'name': 'oracle_search',
-                           'detail': 'a call of the implementation did not return within %d s during the oracle search' % (budget * 3 + 60)})
+                           'detail': 'a call of the implementation did not return within %d s during the oracle search' % max(600, budget * 6)})
         except Exception:
             found, nev = [], 0
             notes.append('oracle_search crashed: %s' % traceback.format_exc()[-600:])
